@@ -1,10 +1,14 @@
 pub mod conn;
+pub mod conn2;
 pub mod pure;
 
 use crate::engine::*;
 
 fn c04_plan(tier: Tier) -> Vec<Job> {
     conn::c04_conn_jobs(tier)
+}
+fn c11_plan(tier: Tier) -> Vec<Job> {
+    conn2::c11_conn_jobs(tier)
 }
 fn c13_plan(tier: Tier) -> Vec<Job> {
     conn::c13_conn_jobs(tier)
@@ -14,7 +18,18 @@ pub fn all() -> Vec<PropDef> {
     vec![
         conn::c01(),
         conn::c02(),
+        conn2::c03(),
         pure::c05(),
+        conn2::c06(),
+        PropDef {
+            id: "C11",
+            subs: conn2::c11_conn_subs(),
+            plan: c11_plan,
+            rule: "connection part: case = stream A.B where A ends in a parse error of any class raised in any parser position (grammar corruptions or an explicit faulty element; cut at the decidable point or with surplus bytes) and B is a continuation of valid requests, blank lines, header-like lines, garbage or a further error, under a random read schedule; oracle = differential: every read after an error-reporting read is replayed, with the same chunk sizes, into a fresh connection with the same limit; results, delivered requests and drained interim output must be identical, recursively at the next error; non-trivial = at least one post-error read was compared",
+            assumptions: vec!["bytes that arrive in the same read as the fault, after it, are not part of 'bytes read from then on'"],
+            single_threaded_world: false,
+        },
+        conn2::c12(),
         pure::c14(),
         pure::c15(),
         pure::c16(),
